@@ -139,5 +139,9 @@ pub fn non_object() -> impl Strategy<Value = J> {
         key().prop_map(J::S),
         proptest::collection::vec(leaf(false), 0..4).prop_map(J::A),
         object(false).prop_map(|o| J::A(vec![o])),
+        // long values, mostly multi-byte characters (whatever a reader quotes, truncates or measures)
+        "\\PC{20,200}".prop_map(J::S),
+        (20u32..3000, any::<u8>()).prop_map(|(n, s)| J::Big(n, s)),
+        (proptest::collection::vec("\\PC{0,80}".prop_map(J::S), 1..6)).prop_map(J::A),
     ]
 }
